@@ -436,7 +436,7 @@ func consumeNewConnectionIDFrame(b []byte) (seq, retire int64, connID []byte, re
 	if seq < retire {
 		return 0, 0, nil, statelessResetToken{}, -1
 	}
-	connID, nn = quicwire.ConsumeVarintBytes(b[n:])
+	connID, nn = quicwire.ConsumeUint8Bytes(b[n:])
 	if nn < 0 {
 		return 0, 0, nil, statelessResetToken{}, -1
 	}
